@@ -28,10 +28,11 @@ const (
 	clsCorrupt
 	clsSibling
 	clsChurn
+	clsLarge
 	nClasses
 )
 
-var classNames = []string{"corpus", "edge", "corrupt", "sibling", "churn"}
+var classNames = []string{"corpus", "edge", "corrupt", "sibling", "churn", "large"}
 
 type poolT struct {
 	inputs []input
@@ -81,7 +82,7 @@ var allParseHelpers = []int{eParseStatement, eParseStatements, eParseQuery, ePar
 
 // buildPool reads the corpus from <root>/testdata/input and derives the rest from seed.
 // scale < 1 thins the corpus (quick tier).
-func buildPool(root string, seed uint64, corrupt, churn int) error {
+func buildPool(root string, seed uint64, corrupt, churn, large int) error {
 	p := poolT{opIdx: map[opKey]int32{}, byPath: map[uint8][]int32{}, byInput: map[uint32][]int32{}, byFamily: map[int32][]int32{}}
 	p.paths = append(p.paths, sharedPaths...)
 	pathIdx := map[string]uint8{}
@@ -164,11 +165,42 @@ func buildPool(root string, seed uint64, corrupt, churn int) error {
 		}
 		p.inputs = append(p.inputs, input{text: txt, origin: "sibling:" + src.origin, entry: src.entry, paths: src.paths, family: src.family, class: clsSibling})
 	}
+	// context families: one oddly-cased spelling of a keyword in several syntactic slots
+	// (keyword position, after a dot, alias, back-quoted, function name, parameter, string):
+	// what a classification cached per spelling confuses
+	for i := 0; i < corrupt/4; i++ {
+		kw := contextKeywords[rng.intn(len(contextKeywords))]
+		sp := oddCase(rng, kw.word)
+		fam := int32(len(p.inputs))
+		pth := [2]uint8{uint8(rng.intn(3)), uint8(rng.intn(3))}
+		texts := []string{
+			strings.ReplaceAll(kw.natural, "#", sp),
+			"SELECT t." + sp + " FROM t",
+			"SELECT 1 AS " + sp,
+			"SELECT `" + sp + "`, " + sp + "(1), @" + sp + ", '" + sp + "' FROM t",
+			"SELECT x." + sp + "." + sp + " FROM x WHERE " + sp,
+		}
+		// order within the family varies, so that every slot comes first in some process
+		for j := len(texts) - 1; j > 0; j-- {
+			k := rng.intn(j + 1)
+			texts[j], texts[k] = texts[k], texts[j]
+		}
+		for _, txt := range texts {
+			p.inputs = append(p.inputs, input{text: txt, origin: "context", entry: eParseStatement, paths: pth, family: fam, class: clsSibling})
+		}
+	}
 	// churn: many distinct identifiers (what a bounded cache or a pool needs to rotate)
 	for i := 0; i < churn; i++ {
 		txt, e := churnText(rng, i)
 		p.inputs = append(p.inputs, input{text: txt, origin: "churn", entry: e, paths: [2]uint8{uint8(rng.intn(3)), uint8(rng.intn(3))},
 			family: int32(len(p.inputs)), class: clsChurn})
+	}
+
+	// large and deep inputs: what a size- or depth-triggered code path needs
+	for i := 0; i < large; i++ {
+		txt, e := largeText(rng, i, p.inputs, corpus)
+		p.inputs = append(p.inputs, input{text: txt, origin: "large", entry: e, paths: [2]uint8{uint8(rng.intn(3)), uint8(rng.intn(3))},
+			family: int32(len(p.inputs)), class: clsLarge})
 	}
 
 	add := func(k opKey) {
@@ -215,11 +247,15 @@ func buildPool(root string, seed uint64, corrupt, churn int) error {
 			add(b) // variant 0
 			// a rotating selection of the other variants
 			nv := 3
-			if in.class == clsEdge || in.class == clsChurn {
+			if in.class == clsEdge || in.class == clsChurn || in.class == clsLarge {
 				nv = 1
 			}
 			for t := 0; t < nv; t++ {
 				v := 1 + (i*7+j*3+t*5)%(nVariants-1)
+				if in.class == clsLarge {
+					// only the variants whose cost is linear in the size of the tree
+					v = []int{vPosEndAll, vWalkPaths, vPreorderBreak2, vInspectMaskA}[(i+j+t)%4]
+				}
 				b.Variant = uint8(v)
 				add(b)
 			}
@@ -305,6 +341,24 @@ func siblingText(r *rng, s string) string {
 		b[i] = "etaoinshrdluETAOINSHRDLU"[r.intn(24)]
 	case len(sp) > 0:
 		b[sp[r.intn(len(sp))]] = '\n'
+	}
+	return string(b)
+}
+
+var contextKeywords = []struct{ word, natural string }{
+	{"SELECT", "# 1"}, {"FROM", "SELECT 1 # t"}, {"WHERE", "SELECT 1 FROM t # true"}, {"END", "SELECT CASE WHEN a THEN 1 ELSE 2 # FROM t"},
+	{"AS", "SELECT 1 # x"}, {"AND", "SELECT a # b"}, {"NULL", "SELECT #"}, {"TRUE", "SELECT #"}, {"CASE", "SELECT # WHEN a THEN 1 END"},
+	{"IN", "SELECT a # (1, 2)"}, {"ON", "SELECT 1 FROM a JOIN b # a.x = b.x"}, {"JOIN", "SELECT 1 FROM a # b ON true"}, {"BY", "SELECT 1 FROM t ORDER # a"},
+	{"CREATE", "# TABLE t (a INT64) PRIMARY KEY (a)"}, {"NOT", "SELECT # a"}, {"UNION", "SELECT 1 # ALL SELECT 2"}, {"LIMIT", "SELECT 1 FROM t # 1"},
+	{"SET", "UPDATE t # a = 1 WHERE true"}, {"INTO", "INSERT # t (a) VALUES (1)"}, {"CAST", "SELECT #(a AS INT64)"}, {"ARRAY", "SELECT #<INT64>[]"},
+}
+
+func oddCase(r *rng, w string) string {
+	b := []byte(strings.ToLower(w))
+	for i := range b {
+		if r.intn(2) == 0 {
+			b[i] = b[i] - 'a' + 'A'
+		}
 	}
 	return string(b)
 }
@@ -418,6 +472,106 @@ func normSibling(r *rng, s string) string {
 		}
 	}
 	return s
+}
+
+// largeText builds big or deeply nested inputs: statement lists of 8-200 KB joined from the
+// corpus, long expression chains, deep parenthesis / array / struct-type nesting, very long
+// identifiers and literals.
+func largeText(r *rng, n int, inputs []input, corpus []int) (string, int) {
+	var b strings.Builder
+	if n%6 == 2 {
+		// 8-60 statements, about a third of them with a syntax (not lexical) error, of very
+		// different lengths: what a parallel or batched statement-list path needs
+		broken := []string{"SELECT FROM", "SELECT 1 +", "CREATE TABLE (", "INSERT INTO t VALUES", "UPDATE t SET", "DELETE", "SELECT * FROM t WHERE", "DROP", "SELECT (1", "ALTER TABLE t ADD",
+			"SELECT a, b, c, d, e, f, g, h FROM t1 JOIN t2 ON t1.a = t2.a JOIN t3 ON t3.b = t2.b WHERE t1.a IN (1, 2, 3, 4, 5, 6, 7) AND t2.c BETWEEN 1 AND GROUP BY"}
+		cnt := 8 + r.intn(52)
+		for i := 0; i < cnt; i++ {
+			if r.intn(3) == 0 {
+				b.WriteString(broken[r.intn(len(broken))])
+			} else {
+				in := inputs[corpus[r.intn(len(corpus))]]
+				if in.entry == eParseExpr || strings.Contains(in.origin, "!bad") {
+					b.WriteString("SELECT 1")
+				} else {
+					b.WriteString(strings.TrimRight(in.text, " \n\t;"))
+				}
+			}
+			b.WriteString(";\n")
+		}
+		return b.String(), eParseStatements
+	}
+	sel := n % 6
+	if sel == 3 {
+		sel = 6 + (n/6)%3 // chain, parentheses, types in rotation
+	}
+	switch sel {
+	case 0, 1: // long statement list
+		target := []int{6 << 10, 16 << 10, 40 << 10}[(n/6+n)%3] + r.intn(4096)
+		for b.Len() < target {
+			in := inputs[corpus[r.intn(len(corpus))]]
+			if in.entry == eParseExpr || strings.Contains(in.origin, "!bad") {
+				continue
+			}
+			b.WriteString(strings.TrimRight(in.text, " \n\t;"))
+			b.WriteString(";\n")
+			if r.intn(40) == 0 {
+				b.WriteString("-- a comment between statements\n")
+			}
+		}
+		if r.intn(2) == 0 {
+			b.WriteString("SELECT (") // a syntax error at the very end
+		}
+		return b.String(), eParseStatements
+	case 6: // long binary chain
+		b.WriteString("1")
+		for i := 0; i < 500+r.intn(500); i++ {
+			b.WriteString([]string{" + ", " * ", " - ", " AND ", " OR ", " || "}[r.intn(6)])
+			fmt.Fprintf(&b, "c%d", i)
+		}
+		return b.String(), eParseExpr
+	case 7: // deep parentheses
+		d := 150 + r.intn(250)
+		b.WriteString(strings.Repeat("(", d))
+		b.WriteString("x")
+		b.WriteString(strings.Repeat(")", d-r.intn(2)))
+		return b.String(), eParseExpr
+	case 8: // deep type nesting, ends in >> sequences
+		d := 60 + r.intn(100)
+		for i := 0; i < d; i++ {
+			if i%2 == 0 {
+				b.WriteString("ARRAY<")
+			} else {
+				b.WriteString("STRUCT<f INT64, g ")
+			}
+		}
+		b.WriteString("STRING(MAX)")
+		b.WriteString(strings.Repeat(">", d))
+		return b.String(), eParseType
+	case 4: // long identifier, string, bytes and raw literals: two of them 17-48 KB, the others 2-8 KB
+		sz := func(big bool) int {
+			if big {
+				return 17<<10 + r.intn(31<<10)
+			}
+			return 2<<10 + r.intn(6<<10)
+		}
+		which, which2 := r.intn(5), r.intn(5)
+		is := func(i int) bool { return which == i || which2 == i }
+		id := strings.Repeat("LongIdentifier_", sz(is(0))/15)
+		fmt.Fprintf(&b, "SELECT %s, `%s`, '%s', b\"%s\", r'%s' FROM t WHERE x = '\\x41\\u00e9%s'", id, strings.Repeat("quoted ident ", sz(is(1))/13),
+			strings.Repeat("s\\n", sz(is(2))/2), strings.Repeat("\\x00b", sz(is(3))/2), strings.Repeat("raw\\", sz(is(4))/4)+"x", strings.Repeat("é", 600))
+		return b.String(), eParseQuery
+	default: // wide select list and IN list
+		b.WriteString("SELECT ")
+		for i := 0; i < 700+r.intn(800); i++ {
+			fmt.Fprintf(&b, "t.col_%d AS a%d, ", i, i)
+		}
+		b.WriteString("1 FROM t WHERE k IN (")
+		for i := 0; i < 1500; i++ {
+			fmt.Fprintf(&b, "%d, ", i)
+		}
+		b.WriteString("0)")
+		return b.String(), eParseQuery
+	}
 }
 
 var churnTemplates = []struct {
